@@ -212,6 +212,8 @@ class Engine(TorchDispatchMode):
         return a.reshape(tuple(t.shape))
 
     def sym(self, t):
+        if isinstance(t, torch.Tensor) and t.is_complex():
+            raise UnsupportedOp("complex tensor in a real-valued op model")
         if not isinstance(t, torch.Tensor):
             if isinstance(t, (bool, int)):
                 return oarr(t)
@@ -326,6 +328,8 @@ class Engine(TorchDispatchMode):
             elif nonneg:
                 T.declare_nonneg(v)
                 self.path.append(T.ge(v, 0))
+            if kind == "int" and lo is not None and hi is not None:
+                T.declare_range(nm, lo, hi)
             if lo is not None:
                 self.path.append(T.ge(v, lo))
             if hi is not None:
